@@ -23,10 +23,12 @@ import (
 // its last one. For every device-add event: every core handler that can act on it has acted before
 // the publishing call returns and before any application handler of that event starts.
 //
-// The observable act of the core handler of device d for the event "peer s announced itself":
-// d has a connection to s whose address it knows -> a NodeManagement subscription call from d on
-// d's own connection to s. (Requests identical to a still unanswered one are withheld by the
-// sender, hence the harness answers every subscription call between two steps.)
+// The observable act of the core handler of device d for the event "peer s announced itself to d":
+// a NodeManagement subscription call from d on d's connection to s. It has to be on the wire before
+// the publishing call returns and before any application handler starts - wherever d's handler
+// stands among the core handlers of the other local devices, which see the event as well.
+// (Requests identical to a still unanswered one are withheld by the sender, hence the harness
+// answers every subscription call between two steps.)
 
 type mcStep struct {
 	Kind string // connect | announce | remove | sub | unsub
@@ -224,13 +226,10 @@ func TestSeveralCoreHandlers(t *testing.T) {
 				ents := world.WithDeviceInfo(peerTree(1))
 				cmd := model.CmdType{NodeManagementDetailedDiscoveryData: c.peer.DiscoveryData(ents, nil)}
 				raw := world.Encode(c.peer.Msg(model.CmdClassifierTypeReply, c.peer.NM(), mcLocalNM(st.D), false, c.peer.DiscoveryRef, cmd))
-				// the devices whose core handler has something to do for this event
+				// the device whose core handler has something to do for this event: the one the peer
+				// announced itself to (the other local devices see the event too, but it concerns a
+				// remote device object that is not theirs; what they make of it is not asserted)
 				acting := []int{st.D}
-				for d := 0; d < nDev; d++ {
-					if o := conns[[2]int{d, st.S}]; d != st.D && o != nil && o.announced {
-						acting = append(acting, d)
-					}
-				}
 				coreDevices := map[int]bool{}
 				for k := range conns {
 					coreDevices[k[0]] = true
